@@ -72,21 +72,44 @@ func ToStringKey(values ...interface{}) string {
 
 		switch v := value.(type) {
 		case string:
-			results[idx] = v
+			results[idx] = escapeKeyPart(v)
 		case []byte:
-			results[idx] = string(v)
+			results[idx] = escapeKeyPart(string(v))
 		case uint:
 			results[idx] = strconv.FormatUint(uint64(v), 10)
 		default:
 			results[idx] = "nil"
 			vv := reflect.ValueOf(v)
-			if vv.IsValid() && !vv.IsZero() {
-				results[idx] = fmt.Sprint(reflect.Indirect(vv).Interface())
+			for vv.IsValid() && vv.Kind() == reflect.Ptr {
+				if vv.IsNil() {
+					vv = reflect.Value{}
+				} else {
+					vv = vv.Elem()
+				}
+			}
+			if vv.IsValid() {
+				if vv.Kind() == reflect.String {
+					results[idx] = escapeKeyPart(vv.String())
+				} else {
+					results[idx] = fmt.Sprint(vv.Interface())
+				}
 			}
 		}
 	}
 
 	return strings.Join(results, "_")
+}
+
+// escapeKeyPart keeps the joined key injective: the separator and the escape character are
+// escaped, and the text "nil" is told apart from a nil value.
+func escapeKeyPart(s string) string {
+	if s == "nil" {
+		return `\nil`
+	}
+	if !strings.ContainsAny(s, `\_`) {
+		return s
+	}
+	return strings.NewReplacer(`\`, `\\`, `_`, `\_`).Replace(s)
 }
 
 func Contains(elems []string, elem string) bool {
